@@ -29,6 +29,7 @@ func C18(e *Env) {
 		r.Undecide("R18.1", inputRel+".VersionValidator", "anchor functions not found")
 		return
 	}
+	c18Unit = buildUnit(vfn)
 	// --- R18.3 constructor correlation
 	validOK := c18Ctor(e, ctor)
 
@@ -74,6 +75,73 @@ func C18(e *Env) {
 }
 
 var wiringC18 = func(e *Env) {}
+
+// The version decision may be split over ValidateVersion and helpers of its package it calls directly
+// (e.g. a wrapper that prefixes the error and a function that compares). The rules treat them as one
+// unit: a helper's parameter has the provenance / typestate of the actual arguments at its call sites,
+// and a site inside a helper is also guarded by whatever guards its call sites.
+type unitT struct {
+	fns     []*ssa.Function
+	callers map[*ssa.Function][]ssa.CallInstruction
+}
+
+var c18Unit *unitT
+
+func buildUnit(entry *ssa.Function) *unitT {
+	u := &unitT{callers: map[*ssa.Function][]ssa.CallInstruction{}}
+	seen := map[*ssa.Function]bool{}
+	var add func(fn *ssa.Function, depth int)
+	add = func(fn *ssa.Function, depth int) {
+		if seen[fn] || depth > 2 {
+			return
+		}
+		seen[fn] = true
+		u.fns = append(u.fns, fn)
+		for _, c := range callsIn(fn, false) {
+			g := c.Common().StaticCallee()
+			if g == nil || g.Pkg == nil || g.Pkg != entry.Pkg || len(g.Blocks) == 0 || g == fn {
+				continue
+			}
+			u.callers[g] = append(u.callers[g], c)
+			add(g, depth+1)
+		}
+	}
+	add(entry, 0)
+	return u
+}
+
+func (u *unitT) has(fn *ssa.Function) bool {
+	if u == nil {
+		return false
+	}
+	for _, f := range u.fns {
+		if f == fn {
+			return true
+		}
+	}
+	return false
+}
+
+// actuals: the arguments passed for parameter p of a helper of the unit, with their call sites.
+func (u *unitT) actuals(p *ssa.Parameter) (vals []ssa.Value, sites []ssa.CallInstruction) {
+	if u == nil || p.Parent() == nil {
+		return nil, nil
+	}
+	fn := p.Parent()
+	idx := -1
+	for i, q := range fn.Params {
+		if q == p {
+			idx = i
+		}
+	}
+	for _, c := range u.callers[fn] {
+		if idx >= 0 && idx < len(c.Common().Args) {
+			vals = append(vals, c.Common().Args[idx])
+			sites = append(sites, c)
+		}
+	}
+	return
+}
 
 func isStringType(t types.Type) bool {
 	b, ok := t.Underlying().(*types.Basic)
@@ -251,6 +319,17 @@ func isV(e *Env, fn *ssa.Function, v ssa.Value, at ssa.Instruction, fieldOK bool
 		return isV(e, fn, x.X, at, fieldOK, depth+1)
 	case *ssa.Convert:
 		return isV(e, fn, x.X, at, fieldOK, depth+1)
+	case *ssa.Parameter:
+		vals, sites := c18Unit.actuals(x)
+		if len(vals) == 0 {
+			return "parameter " + x.Name() + " of a function outside the decision unit", false
+		}
+		for i, a := range vals {
+			if why, ok := isV(e, sites[i].Parent(), a, sites[i], fieldOK, depth+1); !ok {
+				return "argument passed for " + x.Name() + ": " + why, false
+			}
+		}
+		return "every argument passed for " + x.Name() + " is v-prefixed", true
 	case *ssa.Call:
 		n := callName(&x.Call)
 		if n == semverPkg+".Major" || n == semverPkg+".MajorMinor" || n == semverPkg+".Canonical" {
@@ -322,6 +401,22 @@ func hasPrefixEdge(pred, succ *ssa.BasicBlock, val ssa.Value) bool {
 
 // behindValid: ins is reachable only when the receiver's valid field was tested true.
 func behindValid(fn *ssa.Function, ins ssa.Instruction) bool {
+	if behindValidLocal(fn, ins) {
+		return true
+	}
+	// a helper of the decision unit: every call site lies behind the valid flag
+	if c18Unit.has(fn) && len(c18Unit.callers[fn]) > 0 {
+		for _, c := range c18Unit.callers[fn] {
+			if c.Parent() == fn || !behindValid(c.Parent(), c) {
+				return false
+			}
+		}
+		return true
+	}
+	return false
+}
+
+func behindValidLocal(fn *ssa.Function, ins ssa.Instruction) bool {
 	for _, blk := range fn.Blocks {
 		iff, ok := blk.Instrs[len(blk.Instrs)-1].(*ssa.If)
 		if !ok {
@@ -417,6 +512,11 @@ func provOf(e *Env, v ssa.Value, seen map[ssa.Value]bool) map[prov]bool {
 	case *ssa.BinOp:
 		add(provOf(e, x.X, seen))
 		add(provOf(e, x.Y, seen))
+	case *ssa.Parameter:
+		vals, _ := c18Unit.actuals(x)
+		for _, a := range vals {
+			add(provOf(e, a, seen))
+		}
 	case *ssa.Phi:
 		for _, ed := range x.Edges {
 			add(provOf(e, ed, seen))
@@ -548,7 +648,11 @@ func c18Decision(e *Env, fn *ssa.Function) {
 	key := inputRel + ".VersionValidator.ValidateVersion"
 	// R18.2: conditions
 	nc := 0
-	for _, blk := range fn.Blocks {
+	var unitBlocks []*ssa.BasicBlock
+	for _, f := range c18Unit.fns {
+		unitBlocks = append(unitBlocks, f.Blocks...)
+	}
+	for _, blk := range unitBlocks {
 		iff, ok := blk.Instrs[len(blk.Instrs)-1].(*ssa.If)
 		if !ok {
 			continue
@@ -577,7 +681,35 @@ func c18Decision(e *Env, fn *ssa.Function) {
 		guards []guard
 	}
 	var sites []site
-	for _, blk := range fn.Blocks {
+	// guards along the dominator chain of a block, continued at the call sites of a helper of the unit
+	var guardsOf func(blk *ssa.BasicBlock, depth int) []guard
+	guardsOf = func(blk *ssa.BasicBlock, depth int) []guard {
+		var gs []guard
+		for d := blk; d != nil; d = d.Idom() {
+			id := d.Idom()
+			if id == nil {
+				break
+			}
+			iff, ok := id.Instrs[len(id.Instrs)-1].(*ssa.If)
+			if !ok {
+				continue
+			}
+			if len(d.Preds) != 1 {
+				continue
+			}
+			switch d {
+			case id.Succs[0]:
+				gs = append(gs, classifyCond(e, iff.Cond, true))
+			case id.Succs[1]:
+				gs = append(gs, classifyCond(e, iff.Cond, false))
+			}
+		}
+		if cs := c18Unit.callers[blk.Parent()]; len(cs) == 1 && depth < 3 {
+			gs = append(gs, guardsOf(cs[0].Block(), depth+1)...)
+		}
+		return gs
+	}
+	for _, blk := range unitBlocks {
 		for _, ins := range blk.Instrs {
 			c, ok := ins.(*ssa.Call)
 			if !ok {
@@ -587,28 +719,7 @@ func c18Decision(e *Env, fn *ssa.Function) {
 			if n != "errors.New" && n != "fmt.Errorf" {
 				continue
 			}
-			s := site{call: c}
-			// collect guards along the dominator chain
-			for d := blk; d != nil; d = d.Idom() {
-				id := d.Idom()
-				if id == nil {
-					break
-				}
-				iff, ok := id.Instrs[len(id.Instrs)-1].(*ssa.If)
-				if !ok {
-					continue
-				}
-				if len(d.Preds) != 1 {
-					continue
-				}
-				switch d {
-				case id.Succs[0]:
-					s.guards = append(s.guards, classifyCond(e, iff.Cond, true))
-				case id.Succs[1]:
-					s.guards = append(s.guards, classifyCond(e, iff.Cond, false))
-				}
-			}
-			sites = append(sites, s)
+			sites = append(sites, site{call: c, guards: guardsOf(blk, 0)})
 		}
 	}
 	has := func(s site, k string, v bool) bool {
@@ -631,7 +742,7 @@ func c18Decision(e *Env, fn *ssa.Function) {
 	found := map[string]bool{}
 	for _, s := range sites {
 		// R18.3: behind version != nil and valid
-		r.Check(behindValid(fn, s.call), "R18.3", fmt.Sprintf("%s#error-site-%d-behind-valid", key, len(found)+1), "an error can only be raised when the build version is a semantic version", e.P.Pos(s.call.Pos()))
+		r.Check(behindValid(s.call.Parent(), s.call), "R18.3", fmt.Sprintf("%s#error-site-%d-behind-valid", key, len(found)+1), "an error can only be raised when the build version is a semantic version", e.P.Pos(s.call.Pos()))
 		kind := ""
 		switch {
 		case has(s, "major0", true) && has(s, "mm-differs", true) && count(s) == 2:
